@@ -436,6 +436,71 @@ example :
     (match mean f (.list [0]) with | .ok m => [m.val [0], m.val [1]] | .error _ => []) = [13/5, 18/5] := by
   decide +kernel
 
+/-- `Σ_c w(c)`: the volume of the index fibre over which `spaces = l` contracts -/
+def fibreVolume [Field K] (f : Fld K) (l : List Nat) (o : Idx) : K :=
+  sumOver (allIdx (sel true (maskOf f.subs.length l) f.sizes)) (fun c =>
+    prodOver l (fun ind => dvolAt f.subs ind (merge (maskOf f.subs.length l) o c)))
+
+/-- `mean` without auxiliary hypotheses: wherever `mean(spaces)` is defined on sub-domains with volume factors and the
+    fibre volume is non-zero, it is the volume-weighted average over the fibre (both code paths, any subset). -/
+theorem mean_weighted [Field K] [DecidableEq K] (f m : Fld K) (sp : Spaces) (hm : mean f sp = .ok m)
+    (hs : ∀ s ∈ f.subs, s.tv = none ∧ s.dvol ≠ .none)
+    (hW : ∀ l o, parseSpaces sp f.subs.length = .ok l → fibreVolume f l o ≠ 0) :
+    ∃ l, parseSpaces sp f.subs.length = .ok l ∧ ∀ o,
+      m.val o =
+        sumOver (allIdx (sel true (maskOf f.subs.length l) f.sizes)) (fun c =>
+          f.val (merge (maskOf f.subs.length l) o c) *
+            prodOver l (fun ind => dvolAt f.subs ind (merge (maskOf f.subs.length l) o c))) *
+        (fibreVolume f l o)⁻¹ := by
+  obtain ⟨h, hi⟩ := integrate_of_mean f m sp hm
+  obtain ⟨l, hp, _, _⟩ := integrate_eq_sum_weight f h sp hi
+  obtain ⟨V, hV⟩ := totalVolume_ok f.subs sp l hp hs
+  have hV0 : V ≠ 0 := by
+    have e := total_volume_fibre f.subs sp l V hp hV hs []
+    have := hW l [] hp
+    rw [e]; simpa [fibreVolume, Fld.sizes] using this
+  obtain ⟨l', hp', hval⟩ := mean_eq_weighted_average f m h sp V hm hi hV hs hV0
+  have : l' = l := by rw [hp] at hp'; injection hp' with e; exact e.symm
+  subst this
+  exact ⟨l', hp, fun o => by rw [hval o]; rfl⟩
+
+/-- `var(spaces)` is the volume-weighted population variance over the fibre (both code paths, any subset; `o` ranges
+    over well-formed multi-indices of the remaining sub-domains). -/
+theorem var_eq_weighted_variance [Field K] [DecidableEq K] (nsq : K → K) (f g : Fld K) (sp : Spaces)
+    (hreal : f.dt ≠ DT.complex → ∀ z, nsq z = z * z)
+    (hs : ∀ s ∈ f.subs, s.tv = none ∧ s.dvol ≠ .none)
+    (hW : ∀ l o, parseSpaces sp f.subs.length = .ok l → fibreVolume f l o ≠ 0)
+    (h : var nsq f sp = .ok g) :
+    ∃ l m, parseSpaces sp f.subs.length = .ok l ∧ mean f sp = .ok m ∧
+      ∀ o, o.length = ((maskOf f.subs.length l).filter (· == false)).length →
+        g.val o =
+          sumOver (allIdx (sel true (maskOf f.subs.length l) f.sizes)) (fun c =>
+            nsq (f.val (merge (maskOf f.subs.length l) o c) - m.val o) *
+              prodOver l (fun ind => dvolAt f.subs ind (merge (maskOf f.subs.length l) o c))) *
+          (fibreVolume f l o)⁻¹ := by
+  obtain ⟨m, l, d, g', hm, hp, hsq, hg⟩ := var_eq_mean_sq_dev nsq f g sp hreal h
+  obtain ⟨l', hp', hval⟩ := mean_weighted _ g' sp hsq hs (fun l o hl => hW l o hl)
+  have : l' = l := by
+    have hp'' : parseSpaces sp f.subs.length = .ok l' := hp'
+    rw [hp] at hp''; injection hp'' with e; exact e.symm
+  subst this
+  refine ⟨l', m, hp, hm, fun o ho => ?_⟩
+  rw [hg o, hval o]
+  congr 1
+  apply sumOver_congr
+  intro c _
+  simp only [sel_merge _ o c ho]
+
+
+-- non-vacuity: weights [1/2, 2] × scalar dvol 1/2, data 1..4, variance over the FIRST sub-domain at o = [0]:
+-- mean 13/5, var = (1/2·(8/5)² + 2·(2/5)²)/(5/2) = 16/25
+example :
+    let f : Fld Rat := ⟨0, [⟨[2], .vector #[1/2, 2], none⟩, ⟨[2], .scalar (1/2), none⟩], DT.float,
+      fun i => (2 * i.headD 0 + i.tail.headD 0 + 1 : Nat)⟩
+    (match var (fun z => z * z) f (.scalar 0) with | .ok m => [m.val [0], m.val [1]] | .error _ => []) = [16/25, 16/25]
+    ∧ fibreVolume f [0] [0] = 5/2 := by
+  decide +kernel
+
 /-! ### the theorems apply to what the driver executes
   `CRat` (exact complex rationals) with the core instances of Model/Field.lean is a field (Lemmas/FieldCRat.lean) and
   `CRat.conj` a ring involution; below the Mathlib instance is switched off, so `weight`, `integrate`, … are
